@@ -44,6 +44,9 @@ def run(tier, seed):
     for (so, se, mo, me) in rows:
         for v in variants()[:2] + variants()[3:4]:
             jobs.append(({'so': so, 'se': se, 'mo': mo, 'me': me, 'umask': 0o22, 'stdin': 'in2', 'shell': '/bin/sh', 'warmup': True}, v))
+    # requests whose shell does not exist
+    for (so, se, mo, me) in rows[::2]:
+        jobs.append(({'so': so, 'se': se, 'mo': mo, 'me': me, 'umask': 0o22, 'stdin': 'x', 'nospawn': True}, dict(bursts=[(1, 1)], exitcode=7)))
     # --no-run requests
     for (so, se, mo, me) in rows[::3]:
         jobs.append(({'so': so, 'se': se, 'mo': mo, 'me': me, 'umask': 0o22, 'stdin': 'x', 'norun': True}, dict(bursts=[(1, 1)], exitcode=0)))
